@@ -444,7 +444,7 @@ lys_compile_iffeature(const struct ly_ctx *ctx, const struct lysp_qname *qname, 
 
         /* end of operator or operand -> find beginning and get what is it */
         j = i + 1;
-        while (i >= 0 && !isspace(c[i]) && c[i] != '(') {
+        while (i >= 0 && !isspace(c[i]) && c[i] != '(' && c[i] != ')') {
             i--;
         }
         i++; /* go back by one step */
